@@ -402,7 +402,7 @@ func famPlan(tr *Trace, scratch string, seed int64, tier string, workers int) M 
 	recs(nil)
 	nSpell := 0
 	for _, s := range spell {
-		for _, sh := range []shape{{"file", "s/f1"}, {"dir", ""}, {"symlink", "tgt"}, {"file", "s/d"}} {
+		for _, sh := range []shape{{"file", "s/f1"}, {"dir", ""}, {"symlink", "tgt"}, {"file", "s/d"}, {"file", "s"}} { // ("s": a directory with a subdirectory)
 			// a spelling that denotes the root itself is not a destination
 			es := []Entry{{Type: sh.typ, Src: sh.src, Dst: s}}
 			add("spell", "deb", false, 0o22, 1600000000, "MC", root, es)
